@@ -592,15 +592,19 @@ def simulator_chain(ctx, repo):
     g = cfg_of(fi)
     key = fi.qual
     loops = [n for n in g.stmt_nodes() if n.kind == "for"]
-    ctx.ob("R6", f"{key}::segment-loop", len(loops) == 1, f"{fi.qual}: expected one segment loop", fi.loc)
     if len(loops) != 1:
+        # the segments are produced some other way (a generator, a helper): every length from four starts is still
+        # interpreted below; only the symbolic for-every-start argument is not available
+        simulator_chain_concrete(ctx, repo, fi)
+        ctx.note(f"{fi.qual}: no single segment loop in the function itself - R6 is decided by the concrete interpretation (every length 1..1024 from starts 0, 5, 256, 612) only")
         return
     lp = loops[0].ast
     it = g.expand(lp.iter, at=loops[0], consts=fi.mod.consts)  # `starts = range(..)` ... `enumerate(starts)`
     ok = isinstance(it, ast.Call) and call_name(it) == "enumerate" and it.args and isinstance(it.args[0], ast.Call) and call_name(it.args[0]) == "range" and len(it.args[0].args) == 3
     simulator_chain_concrete(ctx, repo, fi)
     if not ok:
-        ctx.error(f"{fi.qual}: segment loop `{ast.unparse(lp.iter)}` is not `for idx, start in enumerate(range(A, A+L, S))` - the for-every-length argument (residue-affine domain) does not apply to this idiom")
+        ctx.note(f"{fi.qual}: segment loop `{ast.unparse(lp.iter)}` is not `for idx, start in enumerate(range(A, A+L, S))` - the symbolic for-every-start argument (residue-affine domain) does not apply; "
+                 f"R6 is decided by the concrete interpretation (every length 1..1024 from starts 0, 5, 256, 612) only")
         return
     A, stop, step = it.args[0].args
     fold = lambda e: repo.fold(e, fi.mod, fi.cls)  # noqa
